@@ -4,6 +4,9 @@
 #  3. demo with the patch (must fail) and without (must pass)     4. store under seeded/, remove the worktree and build output
 pid=$1; tag=$2; crate=$3; demo=$4
 lc=$(echo "$pid" | tr 'A-Z' 'a-z'); wt=/tmp/mut_${lc}_${tag}; out=${wt}_out
+[ -n "$crate" ] || crate=$(python3 -c "import json;print(json.load(open('$out/meta.json')).get('demo_crate',''))")
+[ -n "$demo" ] || demo=$(python3 -c "import json;print(json.load(open('$out/meta.json')).get('demo_test',''))")
+[ -n "$crate" ] && [ -n "$demo" ] || { echo "need crate and demo test name"; exit 2; }
 cd "$(dirname "$0")/.."
 VERIF_REPO=$wt ./check "$pid" > $out/check.log 2>&1; echo "exit $?" >> $out/check.log
 tail -n 4 $out/check.log
